@@ -25,6 +25,8 @@ def cdE : Expr → Nat
   | .matchE _ _ c arms (some d) => max (cdE c) (max (cdE d) (cdArms arms + arms.length + litsLen arms + 3)) + 1
   | .list _ _ xs => cdEls xs + xs.length + 2
   | .index _ _ b i => max (cdE b) (cdE i) + 1
+  | .obj _ _ fs => cdEls (fs.map (·.2)) + fs.length + 2
+  | .member _ _ b _ _ => cdE b + 1
   | _ => 1
 def cdArms : List (List Expr × Expr) → Nat
   | [] => 1
@@ -49,6 +51,7 @@ def cdS : Stmt → Nat
 /-- Expression statements: assignment and `if` over statement blocks. -/
 def cdX : Expr → Nat
   | .assign _ _ (.index isp ity b i) r => max (cdE (.index isp ity b i)) (cdE r) + 1
+  | .assign _ _ (.member msp mty b name mop) r => max (cdE (.member msp mty b name mop)) (cdE r) + 1
   | .assign _ _ _ r => cdE r + 1
   | .ifE _ _ c t (some eb) => max (cdE c) (max (cdBS t) (cdBS eb)) + 1
   | .ifE _ _ c t none => max (cdE c) (cdBS t) + 1
@@ -330,6 +333,68 @@ theorem compileListElems_run (cs : CState) (sp : Span) : ∀ (xs : List Expr) (f
     rw [h2]
     simp only [cgEls, List.append_assoc, List.cons_append, List.nil_append]
 
+/-! ## Object literals -/
+
+/-- Distinct field names: the compiler's template is the list of fields as written. -/
+theorem dedup_nodup {β} (zs : List (String × β)) (acc : List (String × β))
+    (hnd : (zs.map (·.1)).Nodup) (hdis : ∀ k ∈ zs.map (·.1), k ∉ acc.map (·.1)) :
+    zs.foldl (fun acc (kv : String × β) => acc.filter (·.1 != kv.1) ++ [(kv.1, kv.2)]) acc = acc ++ zs := by
+  induction zs generalizing acc with
+  | nil => simp
+  | cons z zs ih =>
+    simp only [List.map_cons, List.nodup_cons] at hnd
+    have hz : acc.filter (·.1 != z.1) = acc := by
+      apply List.filter_eq_self.mpr
+      intro a ha
+      have : a.1 ≠ z.1 := fun e => hdis z.1 (by simp) (List.mem_map.mpr ⟨a, ha, e⟩)
+      simpa using this
+    simp only [List.foldl_cons, hz]
+    rw [ih _ hnd.2]
+    · simp
+    · intro k hk hmem
+      simp only [List.map_append, List.map_cons, List.map_nil, List.mem_append, List.mem_singleton] at hmem
+      rcases hmem with h | h
+      · exact hdis k (by simp [hk]) h
+      · subst h; exact hnd.1 hk
+
+theorem compileObjFields_run (cs : CState) (sp : Span) : ∀ (fs : List (String × Expr)) (fuel : Nat),
+    fs.all (fun f => Frag.pureE f.2) = true → Frag.cdEls (fs.map (·.2)) + fs.length + 1 ≤ fuel →
+    ∀ (L : List (String × String × Nat)) (c0 : SCode) (env : CEnv),
+      Frag.resolved env.scopes (fs.flatMap fun f => Frag.varsE f.2) = true →
+      (compileObjFields fuel sp fs).run (updS cs L c0 env) =
+        ((), updS cs L (c0 ++ (cgFields cs.currModule (ρS env.scopes) sp fs env.lm).1)
+          { env with lm := (cgFields cs.currModule (ρS env.scopes) sp fs env.lm).2 }) := by
+  intro fs
+  induction fs with
+  | nil =>
+    intro fuel _ hf L c0 env _
+    obtain ⟨f, rfl⟩ : ∃ f, fuel = f + 1 := ⟨fuel - 1, by simp [Frag.cdEls] at hf; omega⟩
+    rw [compileObjFields]
+    simp [cgFields]
+    rfl
+  | cons x fs ih =>
+    obtain ⟨k, x⟩ := x
+    intro fuel hp hf L c0 env hres
+    simp only [List.all_cons, Bool.and_eq_true] at hp
+    simp only [List.map_cons, Frag.cdEls, List.length_cons] at hf
+    simp only [List.flatMap_cons] at hres
+    have hres1 : Frag.resolved env.scopes (Frag.varsE x) = true := by
+      simp only [Frag.resolved, List.all_append, Bool.and_eq_true] at hres; exact hres.1
+    have hres2 : Frag.resolved env.scopes (fs.flatMap fun f => Frag.varsE f.2) = true := by
+      simp only [Frag.resolved, List.all_append, Bool.and_eq_true] at hres; exact hres.2
+    obtain ⟨f, rfl⟩ : ∃ f, fuel = f + 1 := ⟨fuel - 1, by omega⟩
+    rw [compileObjFields]
+    refine bind_run _ _ _ _ _ _ (emit_run_S _ _ _ _ _ _) ?_
+    refine bind_run _ _ _ _ _ _ (emit_run_S _ _ _ _ _ _) ?_
+    refine bind_run _ _ _ _ _ _ (compileExpr_pure_S f x cs L _ env hp.1 (by omega) hres1) ?_
+    refine bind_run _ _ _ _ _ _ (emit_run_S _ _ _ _ _ _) ?_
+    have h2 := ih f hp.2 (by omega) L
+      (c0 ++ [(Instr.dup, sp)] ++ [(Instr.member k, sp)] ++ (cpE cs.currModule (ρS env.scopes) x env.lm).1 ++
+        [(Instr.assign, sp)])
+      { env with lm := (cpE cs.currModule (ρS env.scopes) x env.lm).2 } hres2
+    rw [h2]
+    simp only [cgFields, List.append_assoc, List.cons_append, List.nil_append]
+
 /-! ## The `match` lowering -/
 
 theorem compileLit_run (f : Nat) (l : Expr) (h : Frag.litE l = true) (cs : CState) (L) (c0 : SCode) (env : CEnv) :
@@ -538,6 +603,29 @@ theorem compile_gexpr : ∀ (fuel : Nat),
           refine bind_run _ _ _ _ _ _ (emit_run_S _ _ _ _ _ _) ?_
           rw [compileListElems_run cs sp xs fuel hpure (by omega) L _ env hws.1]
           simp only [List.append_assoc]
+        case obj sp ty fs =>
+          simp only [Frag.cdE] at hd
+          simp only [Frag.wsGE, Frag.varsGE, Bool.and_eq_true] at hws
+          simp only [Bool.and_eq_true, decide_eq_true_eq] at hok
+          obtain ⟨hat, hnd⟩ := hok
+          have hpure : fs.all (fun f => Frag.pureE f.2) = true := by
+            simp only [List.all_eq_true] at hat ⊢
+            exact fun x hx => atom_pure x.2 (hat x hx)
+          have hded : (fs.map fun (x : String × Expr) => (x.1, PVal.null)).foldl
+              (fun acc (x : String × PVal) => acc.filter (·.1 != x.1) ++ [(x.1, x.2)]) [] =
+              fs.map fun f => (f.1, PVal.null) := by
+            rw [dedup_nodup _ [] (by simpa [List.map_map, Function.comp_def] using hnd) (by simp)]
+            simp
+          rw [compileExpr, cgE]
+          simp only []
+          rw [show (List.map (fun (x : String × Expr) => match x with | (k, _) => (k, PVal.null)) fs) =
+            fs.map fun (x : String × Expr) => (x.1, PVal.null) from rfl]
+          rw [show (List.foldl (fun acc (x : String × PVal) => match x with
+              | (k, v) => List.filter (fun x => x.1 != k) acc ++ [(k, v)]) []
+              (fs.map fun (x : String × Expr) => (x.1, PVal.null))) = fs.map fun f => (f.1, PVal.null) from hded]
+          refine bind_run _ _ _ _ _ _ (emit_run_S _ _ _ _ _ _) ?_
+          rw [compileObjFields_run cs sp fs fuel hpure (by simpa using hd) L _ env hws.1]
+          simp only [List.append_assoc]
         case matchE sp ty c arms dflt =>
           cases dflt with
           | none => simp [Frag.okGE] at hok
@@ -663,6 +751,16 @@ theorem compile_xexpr : ∀ (fuel : Nat) (e : Expr) (cs : CState), Frag.okXE e =
       refine bind_run _ _ _ _ _ _ hI ?_
       rw [emit_run_S]
       simp only [List.append_assoc]
+    case member sp ty b name mop =>
+      cases mop <;> try (simp [Frag.okXE, Frag.okGE] at hok; done)
+      simp only [Frag.okXE] at hok
+      simp only [Frag.cdE] at hd
+      have hB := ih b cs hok (by omega) L c0 env
+        (by simpa [Frag.wsGE, Frag.varsGE, Frag.callsGE] using hws)
+      rw [compileExpr, cgE]
+      refine bind_run _ _ _ _ _ _ hB ?_
+      simp only []
+      rw [emit_run_S, List.append_assoc]
     case grouped sp e =>
       simp only [Frag.okXE] at hok
       simp only [Frag.cdE] at hd
